@@ -35,7 +35,7 @@ def PartsWF (lo hi : Int) : List (Int × Int) → Prop
     `ip.fr` equals `k · 10^-fd`, written without fractions as `k · 10^|fr| = ±(ip fr) · 10^fd` (so more than `fd`
     fraction digits are fine exactly when the surplus ones are zeros).
     `rfc = true` is the RFC grammar; `rfc = false` drops the requirement of a digit between a sign and the point or the
-    end — that is what the code accepts (finding F2). -/
+    end — that is what the code of the pinned tree accepts (finding F2). -/
 def DecLexWs (rfc : Bool) (fd : Nat) (s : Bytes) (k : Int) : Prop :=
   ∃ l sg ip fr r, ∃ point : Bool,
     s = l ++ (sg ++ ip ++ (if point then 46 :: fr else [])) ++ r ∧ l.all isSpace = true ∧ r.all isSpace = true ∧ IsSign sg ∧
